@@ -271,7 +271,40 @@ def _fixed_element_accumulators(f):
     return out
 
 
+def rule_ode_ownership(ctx, rule='R01.11'):
+    """R01.11: the list of ODEs of a simulation holds the user's ODEs and, while the BS integrator runs, one ODE that BS
+    registers for the N-body system itself (ri_bs.nbody_ode, created in reb_integrator_bs_part2). reb_integrator_part2
+    integrates *every* registered ODE with the BS stepper after a step of any other integrator. On that path - under
+    r->integrator != REB_INTEGRATOR_BS - the N-body ODE must have been released before reb_integrator_bs_step is called;
+    otherwise a simulation that once used BS integrates its particles twice per step after the integrator is changed
+    (and, once N has changed, writes beyond the ODE's arrays)."""
+    from . import pathcond
+    from ..cfront import walk, render, callee_name, call_args
+    tu = cfront.load_tu('integrator.c')
+    fn = tu.func('reb_integrator_part2')
+    btu = cfront.load_tu('integrator_bs.c')
+    creates = [e for e in walk(cfront.body(btu.func('reb_integrator_bs_part2'))) if cfront.is_assign(e) and render(e['inner'][0]).endswith('nbody_ode') and 'reb_ode_create' in render(e['inner'][1])]
+    anchor(creates, 'reb_integrator_bs_part2 registers ri_bs.nbody_ode with reb_ode_create')
+    pcs = pathcond.conditions(fn)
+    n = 0
+    releases = [cfront.line_of(e) for e in walk(cfront.body(fn)) if e.get('kind') == 'CallExpr' and callee_name(e) == 'reb_ode_free' and 'nbody_ode' in render(call_args(e)[0])
+                and not any('N_odes' in c for c in pcs.get(id(e), []))]
+    for e in walk(cfront.body(fn)):
+        if e.get('kind') == 'CallExpr' and callee_name(e) == 'reb_integrator_bs_step':
+            cs = [c.replace(' ', '') for c in pcs.get(id(e), [])]
+            if not any('r.integrator!=REB_INTEGRATOR_BS' in c for c in cs):
+                continue
+            n += 1
+            excluded = any('nbody_ode' in c and ('==0' in c or c.startswith('!')) for c in cs)
+            if not excluded and not any(l < cfront.line_of(e) for l in releases):
+                ctx.report(rule, 'part2:user-odes:nbody_ode', 'src/integrator.c:%s reb_integrator_part2' % cfront.line_of(e),
+                           'after a step of an integrator other than BS every registered ODE is advanced with reb_integrator_bs_step, and nothing on this path releases ri_bs.nbody_ode (registered by reb_integrator_bs_part2, src/integrator_bs.c:%s): once BS has been used, the N-body equations are integrated a second time after every step of the new integrator' % cfront.line_of(creates[0]))
+    anchor(n >= 1, 'reb_integrator_part2 advances user ODEs with reb_integrator_bs_step when the integrator is not BS')
+    ctx.covered(rule, 'the N-body ODE registered by BS is released before other integrators advance the registered ODEs', n, floor=1)
+
+
 def run(ctx):
+    rule_ode_ownership(ctx)
     from . import c03 as _c03
     _c03.rule_mass_parameter(ctx, _c03.rule_scope(ctx))   # R03.3: every caller hands the Kepler solver G times a mass (one factor of G)
     rule_central_body_sums(ctx)
